@@ -355,6 +355,7 @@ func Run(opts *Options) (int, error) {
 			}
 			return query
 		}
+		var newList *Merger
 		eventBox.Wait(func(events *util.Events) {
 			if _, fin := (*events)[EvtReadFin]; fin {
 				delete(*events, EvtReadNew)
@@ -518,7 +519,7 @@ func Run(opts *Options) (int, error) {
 								determine(val.final)
 							}
 						}
-						terminal.UpdateList(val)
+						newList = val
 					}
 				}
 			}
@@ -526,6 +527,12 @@ func Run(opts *Options) (int, error) {
 		})
 		if stop {
 			break
+		}
+		if newList != nil {
+			// Not while the event box is locked: UpdateList may have to wait for
+			// the terminal to take the events it sends, and the terminal may be
+			// waiting for the event box to post its next search request
+			terminal.UpdateList(newList)
 		}
 		if delay && reading {
 			dur := util.DurWithin(
